@@ -1,5 +1,5 @@
 From Coq Require Extraction.
 From Coq Require Import ExtrOcamlBasic.
-From Verif Require Import Val Source.
-Definition verif_entry := Source.run_case.
+From Verif Require Import Val MathParse.
+Definition verif_entry := MathParse.run_case.
 Extraction "model.ml" verif_entry.
